@@ -307,3 +307,20 @@ claim("C39", IRJ,
       "TLC; loop-free x86-32 functions without calls; one recorded known finding (stores reaching a load through a different address "
       "expression are not tracked), identified by a trigger TLC re-decides on every run",
       "DESIGN.md 5/C39", "IRJudge")
+
+FSJ = ("TLA+ model of the HOST file system (SandboxFS.tla: a tree of directories, files and symbolic links and the kernel's "
+       "component-by-component path walk) used as the deciding oracle: the host paths the emulated environments return for guest "
+       "paths are recorded and TLC walks each one over the model of the scratch host it was computed on; the model's walk is itself "
+       "validated against the real host (realpath) on every item")
+
+claim("C46", FSJ,
+      "SandboxFS.tla decides where a returned host path LANDS (links followed wherever the kernel follows them, '..' relative to the "
+      "directory reached, absolute link targets from the host root) and requires the landing inside the base directory or on a "
+      "passthrough entry. Hosts: exhaustive over pairs of symbolic links (top-level and nested) x 17 targets (relative, climbing, "
+      "absolute guest-style, absolute host paths, chains, loops), a sibling directory whose name extends the base's, files next to "
+      "the base; guest paths: every sequence up to 3 (thorough 4) names over {a, l, f, .., .}, absolute and relative, plus "
+      "hand-written ones (regexp-prefix and exact passthrough with '..', '//', Windows separators and drive prefixes). APIs: "
+      "FileSystem.resolve_path (str, bytes, follow_link=False), the file really opened by FileSystem.open_ (read from "
+      "/proc/self/fd), unix_to_sbpath, windows_to_sbpath.",
+      "TLC; POSIX host; the known finding (string helpers ignore links) is decided by TLC on the same host without its links",
+      "DESIGN.md 5/C46", "SandboxFS")
